@@ -281,12 +281,17 @@ func hasGo(src string) bool { return strings.Contains(src, "go ") }
 func run(c *common.Ctx) *common.Result {
 	res := common.NewResult()
 	canaryWant = canary()
+	// (3) two environments never see each other's bindings; runs before anything
+	// else so that this process's first import of the package is the one observed
+	isolation(res)
+	variants(res)
 	progs := corpus(c)
 	bound := 2
 	if c.Thorough() {
 		bound = 3
 	}
 	interleaveBudget := 0
+	poisoned := false
 	for pi, p := range progs {
 		if !c.Mine(pi) {
 			continue
@@ -295,7 +300,7 @@ func run(c *common.Ctx) *common.Result {
 			res.Cap("soft deadline: not all programs explored")
 			break
 		}
-		if len(res.CapsHit) > 0 {
+		if poisoned {
 			break
 		}
 		stmt, err := parser.ParseSrc(p.Src)
@@ -309,6 +314,9 @@ func run(c *common.Ctx) *common.Result {
 		}
 		res.Add("programs", 1)
 		solo, usable := sequential(p, stmt, res)
+		if canary() != canaryWant {
+			poisoned = true
+		}
 		if solo.trace != "" || solo.val != "nil" {
 			if res.Distinct("nontrivial", p.Src) {
 				res.Add("distinct_nontrivial", 1)
@@ -334,8 +342,8 @@ func run(c *common.Ctx) *common.Result {
 				continue
 			}
 			b := bound
-			if n == 3 && b > 2 {
-				b = 2
+			if (n == 3 || !p.Hand) && b > 2 {
+				b = 2 // preemption bound 3 only for two runs of the handcrafted programs
 			}
 			reported := false
 			d0 := astdump.Dump(stmt)
@@ -395,15 +403,12 @@ func run(c *common.Ctx) *common.Result {
 		if got := canary(); got != canaryWant {
 			res.Violate(common.Violation{Class: "process-state-changed", Case: p.Src, Detail: "after interleaved runs: " + got, Replay: replayData{Prog: p, Mode: "sequential"}})
 			res.Cap("process-wide state was modified by a program; this worker's later cases were skipped")
+			poisoned = true
 			break
 		}
 		if pi%977 == 0 || (p.Hand && pi%7 == 0) {
 			res.Sample(map[string]interface{}{"program": p.Src, "solo": solo.key(), "polls": solo.polls})
 		}
-	}
-	// (3) two environments never see each other's bindings
-	if c.Shard == 0 {
-		isolation(res)
 	}
 	return res
 }
@@ -426,6 +431,96 @@ func isolation(res *common.Result) {
 	for _, probe := range []string{"b", "g", "N"} {
 		if _, err := e1.Get(probe); err == nil {
 			res.Violate(common.Violation{Class: "environments-share-bindings", Case: "e1 sees " + probe, Detail: "a binding made in another environment is visible"})
+		}
+	}
+	// import: the module handed to one environment must not give access to another
+	// environment's bindings (in either order of importing)
+	for _, pkg := range []string{"math", "regexp"} {
+		ea, eb := env.NewEnv(), env.NewEnv()
+		srcA := "leak" + pkg + " = \"secret of A\"\nm = import(\"" + pkg + "\")\nm.leak" + pkg + " ?? \"undef\""
+		srcB := "m = import(\"" + pkg + "\")\nm.leak" + pkg + " ?? \"undef\""
+		va, errA := vm.Execute(ea, nil, srcA)
+		vb, errB := vm.Execute(eb, nil, srcB)
+		res.Add("isolation_checks", 1)
+		if errA != nil || errB != nil {
+			res.Note(fmt.Sprint("import isolation programs failed: ", errA, errB))
+			continue
+		}
+		_ = va
+		if irrun.RenderGo(vb) != "\"undef\"" {
+			res.Violate(common.Violation{Class: "environments-share-bindings/import", Case: "A: " + srcA + " || B: " + srcB,
+				Detail: "environment B reads " + irrun.RenderGo(vb) + " through its imported module: a binding of the environment that imported the package first"})
+		}
+	}
+}
+
+// variants: one shared tree run on environments that DIFFER in host bindings (a
+// type name, a value, a function): every run must equal the run of a freshly
+// parsed tree on the same kind of environment alone.
+var variantProgs = []string{
+	"x = make(struct { ID Key })\nx.ID",
+	"make(Key)",
+	"a = make([]Key, 1)\na[0]",
+	"m = map[string]Key{}\nm.k = hostv\nm.k",
+	"hostf()",
+	"func f() { return hostf() }\n[f(), hostv]",
+	"[hostv, hostf(), make(Key)]",
+	"x = make(struct { A Key, B []Key })\n[x.A, len(x.B)]",
+	"func mk() { return make(struct { ID Key }) }\n[mk().ID, mk().ID]",
+}
+
+func variantEnv(v int) *env.Env {
+	e := env.NewEnv()
+	if v == 0 {
+		e.DefineType("Key", int64(0))
+		e.Define("hostv", int64(1))
+		e.Define("hostf", func() string { return "A" })
+	} else {
+		e.DefineType("Key", "")
+		e.Define("hostv", "b")
+		e.Define("hostf", func() string { return "B" })
+	}
+	return e
+}
+
+func runVariant(stmt ast.Stmt, v int) string {
+	defer func() { recover() }()
+	val, err := vm.RunContext(stepctx.Fuel(fuel), variantEnv(v), &vm.Options{Debug: false}, stmt)
+	e := ""
+	if err != nil {
+		e = " error"
+	}
+	return irrun.RenderGo(val) + fmt.Sprintf(" (%T)", val) + e
+}
+
+func variants(res *common.Result) {
+	for _, src := range variantProgs {
+		for _, order := range [][]int{{0, 1, 0, 1}, {1, 0, 1, 0}} {
+			var ref [2]string
+			for v := 0; v < 2; v++ {
+				fresh, err := parser.ParseSrc(src)
+				if err != nil {
+					res.Note("variant program does not parse (machinery): " + src)
+					return
+				}
+				ref[v] = runVariant(fresh, v)
+			}
+			shared, _ := parser.ParseSrc(src)
+			d0 := astdump.Dump(shared)
+			for i, v := range order {
+				got := runVariant(shared, v)
+				res.Add("variant_runs", 1)
+				if got != ref[v] {
+					res.Violate(common.Violation{Class: "shared-tree-differs-across-environments", Case: src,
+						Detail: fmt.Sprintf("run %d of one shared tree on environment variant %d (order %v) yields %s; a freshly parsed tree on that environment alone yields %s", i+1, v, order, got, ref[v]),
+						Replay: replayData{Prog: prog{Name: "variant", Src: src, Hand: true}, Mode: "variants"}})
+					break
+				}
+			}
+			if astdump.Dump(shared) != d0 {
+				res.Violate(common.Violation{Class: "tree-modified/after-run", Case: src, Detail: "the shared tree changed while running on differing environments",
+					Replay: replayData{Prog: prog{Name: "variant", Src: src, Hand: true}, Mode: "variants"}})
+			}
 		}
 	}
 }
@@ -460,6 +555,19 @@ func replay(c *common.Ctx, path string) int {
 	}
 	fmt.Println(rd.Prog.Src)
 	res := common.NewResult()
+	if rd.Mode == "variants" {
+		r2 := common.NewResult()
+		variantProgs = []string{rd.Prog.Src}
+		variants(r2)
+		for _, v := range r2.Violations {
+			fmt.Println(v.Class, ":", v.Detail)
+		}
+		if len(r2.Violations) > 0 {
+			return 1
+		}
+		fmt.Println("replay: no divergence")
+		return 0
+	}
 	if rd.Mode == "interleaved" {
 		solo := normalise(runSolo(stmt, nil), rd.Prog.Src)
 		var first string
